@@ -26,7 +26,11 @@ type pkgSrc struct {
 }
 
 func loadPkg(rel string) (*pkgSrc, error) {
-	dir := filepath.Join("/repo", rel)
+	root := os.Getenv("VERIF_REPO")
+	if root == "" {
+		root = "/repo"
+	}
+	dir := filepath.Join(root, rel)
 	ents, err := os.ReadDir(dir)
 	if err != nil {
 		return nil, err
